@@ -39,7 +39,7 @@ FUNCTIONS = [
     "magpylib._src.input_checks:check_format_input_angle",
 ]
 BOUNDS = [
-    "old path length N in 1..3 (quick) / 1..4 (thorough), input length in {scalar,1,2,3}, start in [-5,5] (quick) / [-7,7] (thorough) plus 'auto'; "
+    "old path length N in 1..3 (quick) / 1..5 (thorough), input length in {scalar,1,2,3} (thorough: ..5), start in [-5,5] (quick) / [-9,9] (thorough) plus 'auto'; "
     "anchors {None, 0, single vector, per-step}; path contents, displacements, rotations, anchors symbolic (all reals / unit quaternions)",
     "one operation from an arbitrary state (inductive step); longer paths outside the claim",
 ]
@@ -54,12 +54,12 @@ INLENS = [None, 1, 2, 3]
 
 
 def _starts(tier):
-    r = range(-5, 6) if tier == "quick" else range(-7, 8)
+    r = range(-5, 6) if tier == "quick" else range(-9, 10)
     return list(r) + ["auto"]
 
 
 def _Ns(tier):
-    return [1, 2, 3] if tier == "quick" else [1, 2, 3, 4]
+    return [1, 2, 3] if tier == "quick" else [1, 2, 3, 4, 5]
 
 
 def cases(tier, seed):
@@ -115,7 +115,8 @@ def run_case(case, info):
 def _step(C):
     op, N = C.case["op"], C.case["N"]
     starts = _starts(C.tier)
-    for n_in, start in itertools.product(INLENS, starts):
+    inlens = INLENS if C.tier == "quick" else INLENS + [4, 5]
+    for n_in, start in itertools.product(inlens, starts):
         CTX.reset([])
         obj, P, Q, unit, inputs, qg = _mk_obj(N)
         tag = f"in={n_in},start={start}"
